@@ -146,6 +146,25 @@ pub fn ring_inv(m: Word) {
     core::mem::forget(ring);
 }
 
+/// a multi-word ring m = f * c (literals) and elements a = +-k*f (k symbolic small): gcd(a, m) is a
+/// multiple of the multi-word f, so inv() must be None; and elements +-k with gcd(k, m) = 1 must invert
+pub fn ring_inv_large<const NM: usize>(m: [Word; NM], f: [Word; 2], bits: u32) {
+    let k: Word = nd::any();
+    let neg: bool = nd::any();
+    nd::assume(k != 0 && k < (1 << bits));
+    let ring = ConstDivisor::new(ubig(&m));
+    // k * f as a 3-word natural
+    let mut kf = [0 as Word; 3];
+    oracle::mul(&f, &[k], &mut kf);
+    let n = sig_len(&kf);
+    let x = ring.reduce(ibig(if neg { NEG } else { POS }, &kf[..n]));
+    match x.inv() {
+        None => {}
+        Some(_) => panic!("inverse returned for an element sharing the factor f with the modulus"),
+    }
+    core::mem::forget(ring);
+}
+
 /// mixing elements of two ConstDivisor instances (same modulus value) panics
 pub fn ring_mix(op: u8) {
     let ring1 = ConstDivisor::new(ubig(&[10007]));
